@@ -1017,8 +1017,10 @@ func c13Oracle(s EngScenario, obs EngObs) string {
 			if e.Kind != "X" {
 				continue
 			}
-			inval := false
+			// one epoch per invalidating *statement* of the executed rule (the bound of the theorem C13_run: the call may be
+			// evaluated again between two invalidating statements of one action list)
 			for _, st := range rule[e.Rule].Then {
+				inval := false
 				t := noSpace(st.grl())
 				if strings.Contains(t, "Forget(") || strings.Contains(t, "Changed(") || (st.Kind == "atom" && st.A.Kind == "method" && (st.A.F == "AddTo" || st.A.F == "Inc")) {
 					inval = true
@@ -1031,9 +1033,9 @@ func c13Oracle(s EngScenario, obs EngObs) string {
 						}
 					}
 				}
-			}
-			if inval {
-				epochs++
+				if inval {
+					epochs++
+				}
 			}
 		}
 		bound[a.name] += epochs
